@@ -136,6 +136,7 @@ type Explorer struct {
 	violStates  atomic.Int64
 	doReplay    bool
 	stopAll     atomic.Bool
+	hitCap      atomic.Bool
 }
 
 func hashOut(prev [8]byte, msgs []midi.Event) [8]byte {
@@ -342,9 +343,9 @@ func (e *Explorer) Run(workers int) {
 		for _, l := range next {
 			frontier = append(frontier, l...)
 		}
-		if s.MaxState > 0 && len(e.metas) > s.MaxState {
+		if e.hitCap.Load() {
 			e.capped = true
-			e.Res.Note(fmt.Sprintf("scenario %s/%s: state cap %d reached at depth %d (all states up to depth %d fully expanded)", s.D.Name, s.D.Mode, s.MaxState, depth, depth-1))
+			e.Res.Note(fmt.Sprintf("scenario %s/%s: state cap %d reached at depth %d (every state up to depth %d was fully expanded)", s.D.Name, s.D.Mode, s.MaxState, depth, depth-2))
 			break
 		}
 	}
@@ -414,6 +415,12 @@ func (e *Explorer) expand(w *worker, n *node, ev Event, depth int32) *node {
 		return nil
 	}
 	e.mu.Lock()
+	if s.MaxState > 0 && len(e.metas) >= s.MaxState { // hard cap (memory): stop admitting new states, the run is reported as not exhaustive
+		e.mu.Unlock()
+		sh.Unlock()
+		e.hitCap.Store(true)
+		return nil
+	}
 	id := int32(len(e.metas))
 	e.metas = append(e.metas, meta{parent: n.id, ev: ev, outHash: chain(e.metas[n.id].outHash, msgs), depth: depth})
 	e.mu.Unlock()
